@@ -74,6 +74,8 @@ type flagCase struct {
 	// it is taken exactly when key evaluates to keyVal (key == nil otherwise)
 	key    ssa.Value
 	keyVal bool
+	// to: the block of the phi the case flows into along the edge from -> to (nil otherwise)
+	to *ssa.BasicBlock
 }
 
 // flagCases enumerates the constant values an int expression may take: a
@@ -103,6 +105,7 @@ func (c *Ctx) flagCases(v ssa.Value, depth int) ([]flagCase, bool) {
 			for i := range cs {
 				// attribute the case to the incoming edge's predecessor
 				cs[i].from, cs[i].fn = x.Block().Preds[k], x.Parent()
+				cs[i].to = x.Block()
 			}
 			out = append(out, cs...)
 		}
